@@ -32,7 +32,7 @@ var mathFuncs = map[string]LGFunction{
 	"log10":      mathLog10,
 	"max":        mathMax,
 	"min":        mathMin,
-	"mod":        mathMod,
+	"mod":        mathFmod, // Lua 5.1 (LUA_COMPAT_MOD): math.mod is the old name of math.fmod
 	"modf":       mathModf,
 	"pow":        mathPow,
 	"rad":        mathRad,
@@ -208,13 +208,6 @@ func mathMin(L *LState) int {
 		}
 	}
 	L.Push(min)
-	return 1
-}
-
-func mathMod(L *LState) int {
-	lhs := L.CheckNumber(1)
-	rhs := L.CheckNumber(2)
-	L.Push(luaModulo(lhs, rhs))
 	return 1
 }
 
